@@ -47,6 +47,8 @@ def exec_c02(cfg, devs):
     ex = cfh.Exec(devs, dev, time_limit=cfg.get('limit', 14.0), reply_menu=('once',),
                   send_fault=cfg.get('send_fault', False), needs_resending=cfg.get('resend', True))
     ex.env.on_fault = lambda kind: ex.log('fault', kind)
+    ex.env.hello = bool(cfg.get('hello'))
+    ex.s.eager_start = bool(cfg.get('eager'))
     ex.env.on_rx = lambda idx: ex.log('rx', idx)
     info = {}
 
@@ -299,6 +301,10 @@ def _judge(p, cfg, devs, ex, info, dev):
         if st[2] is False:
             viol('dispatcher_dead', 'Crazyflie.incoming is not alive')
     # (5) second session
+    names2 = [e[2] for e in ev2 if e[1] == 'cb']
+    prog2 = [n for n in names2 if n in PROGRESS]
+    if info.get('s2_full') and (prog2 != list(PROGRESS) or names2.count('connection_requested') != 1):
+        viol('second_session_grammar:' + '>'.join(prog2), 'fault-free second session delivered %r' % (names2,))
     if not info.get('s2_full'):
         names2 = [e[2] for e in ev2 if e[1] == 'cb']
         viol('second_session_incomplete:' + (names2[-1] if names2 else 'nothing') + (
@@ -328,6 +334,9 @@ def configs(quick):
         _cfg('cf:p3', 'cf', 3, send_fault=True, nparam=1),
         _cfg('cf:p10:mem', 'cf', 10, send_fault=True, mems=1, nlog=0, nparam=1),
         _cfg('cf:p10:rel', 'cf', 10, send_fault=True, resend=False, nparam=1),
+        _cfg('cf:p10:hello', 'cf', 10, send_fault=True, nlog=0, nparam=1, hello=True),
+        _cfg('cf:p10:hello:eager', 'cf', 10, send_fault=True, nlog=0, nparam=1, hello=True, eager=True),
+        _cfg('scf:p10:hello:eager', 'scf', 10, send_fault=True, nlog=0, nparam=1, hello=True, eager=True),
     ]
     return out
 
@@ -338,8 +347,8 @@ def configs_deep():
 
 
 def configs_lines():
-    return [_cfg('cf:p10:lines', 'cf', 10, lines=True, nlog=0, nparam=1, send_fault=False),
-            _cfg('scf:p10:lines', 'scf', 10, lines=True, nlog=0, nparam=1, send_fault=False)]
+    return [_cfg('cf:p10:lines', 'cf', 10, lines=True, nlog=0, nparam=1, send_fault=False, hello=True),
+            _cfg('scf:p10:lines', 'scf', 10, lines=True, nlog=0, nparam=1, send_fault=False, hello=True)]
 
 
 def run(ck):
